@@ -120,7 +120,9 @@ func TestC06ConcurrentRemovals(t *testing.T) {
 				c := c
 				switch c.kind {
 				case "rpan":
-					fs[i] = func() { _, _ = b.RemovePipelineAndNodes(ctx, eventlogger.EventType(etOf[c.target]), eventlogger.PipelineID(c.target)) }
+					fs[i] = func() {
+						_, _ = b.RemovePipelineAndNodes(ctx, eventlogger.EventType(etOf[c.target]), eventlogger.PipelineID(c.target))
+					}
 				case "rmpipe":
 					fs[i] = func() { _ = b.RemovePipeline(eventlogger.EventType(etOf[c.target]), eventlogger.PipelineID(c.target)) }
 				case "rmnode":
